@@ -587,6 +587,8 @@ func c02Register(c *core.Ctx, root *packages.Package) {
 						}
 					case strings.HasSuffix(e.Args[0], ".taskToForkKeys") && e.Args[1] == id:
 						sawForget = true
+					case strings.HasSuffix(e.Args[0], ".forkEdges") && e.Args[1] == id:
+						// F125: the task's own edge, kept by task id for forks without keys
 					case strings.HasSuffix(e.Args[0], ".forks"):
 						good = false
 						c.Fail("C02.register", "TaskMaster.delFork#whole-key", e.Pos, "delFork removes a whole routing key (%s): every other task subscribed to that key stops receiving points", e.Args[1])
@@ -599,7 +601,7 @@ func c02Register(c *core.Ctx, root *packages.Package) {
 					c.Fail("C02.register", "TaskMaster.delFork#all-keys", e.Pos, "the loop over the task's keys is left early")
 				}
 			}
-			if p.Count("Close") > 1 {
+			if p.Count("Close") > 1 && !c02ClosesOnceByFlag(info, fn) {
 				good = false
 				c.Fail("C02.register", "TaskMaster.delFork#close-once", p.RetPos, "the edge can be closed more than once within one iteration")
 			}
@@ -951,4 +953,77 @@ func c02StartFork(c *core.Ctx, root *packages.Package) {
 		c.Ok("C02.startfork", "TaskMaster.StartTask#error-after-subscribe")
 	}
 	c.Floor("C02.startfork", "paths of StartTask that subscribe the task", n, 2)
+}
+
+// c02ClosesOnceByFlag: every Close call of fn stands under a test `!flag` of one and the same local bool, and next to every Close
+// inside a loop the flag is set to true: however often the loop runs and whatever follows it, the edge is closed at most once.
+func c02ClosesOnceByFlag(info *types.Info, fn *core.Func) bool {
+	var flag types.Object
+	okAll, n := true, 0
+	var stack []ast.Node
+	ast.Inspect(fn.Decl.Body, func(nd ast.Node) bool {
+		if nd == nil {
+			stack = stack[:len(stack)-1]
+			return true
+		}
+		stack = append(stack, nd)
+		call, ok := nd.(*ast.CallExpr)
+		if !ok {
+			return true
+		}
+		cal := core.Callee(info, call)
+		if cal == nil || cal.Name() != "Close" {
+			return true
+		}
+		n++
+		// the enclosing if conditions
+		var f types.Object
+		inLoop := false
+		var block *ast.BlockStmt
+		for i := len(stack) - 1; i >= 0; i-- {
+			switch x := stack[i].(type) {
+			case *ast.IfStmt:
+				ast.Inspect(x.Cond, func(m ast.Node) bool {
+					if u, ok := m.(*ast.UnaryExpr); ok && u.Op == token.NOT {
+						if id, ok := ast.Unparen(u.X).(*ast.Ident); ok {
+							if o := info.Uses[id]; o != nil {
+								if b, ok := o.Type().Underlying().(*types.Basic); ok && b.Kind() == types.Bool {
+									f = o
+								}
+							}
+						}
+					}
+					return true
+				})
+				if block == nil {
+					block = x.Body
+				}
+			case *ast.RangeStmt, *ast.ForStmt:
+				inLoop = true
+			}
+		}
+		if f == nil || (flag != nil && f != flag) {
+			okAll = false
+			return true
+		}
+		flag = f
+		if inLoop {
+			set := false
+			if block != nil {
+				ast.Inspect(block, func(m ast.Node) bool {
+					if as, ok := m.(*ast.AssignStmt); ok && len(as.Lhs) == 1 && len(as.Rhs) == 1 {
+						if id, ok := as.Lhs[0].(*ast.Ident); ok && info.Uses[id] == f && types.ExprString(as.Rhs[0]) == "true" {
+							set = true
+						}
+					}
+					return true
+				})
+			}
+			if !set {
+				okAll = false
+			}
+		}
+		return true
+	})
+	return okAll && n >= 1
 }
